@@ -665,6 +665,9 @@ class Torrent():
             self._piece_size_min = type(self).piece_size_min_default
         elif not utils.is_divisible_by_16_kib(piece_size_min):
             raise error.PieceSizeError(piece_size_min)
+        elif int(piece_size_min) > getattr(self, '_piece_size_max', int(piece_size_min)):
+            # Minimum must not be larger than maximum
+            raise error.PieceSizeError(piece_size_min, min=0, max=self._piece_size_max)
         else:
             self._piece_size_min = int(piece_size_min)
             # If a piece size is set, silently limit it to new minimum
@@ -687,6 +690,9 @@ class Torrent():
             self._piece_size_max = type(self).piece_size_max_default
         elif not utils.is_divisible_by_16_kib(piece_size_max):
             raise error.PieceSizeError(piece_size_max)
+        elif int(piece_size_max) < getattr(self, '_piece_size_min', int(piece_size_max)):
+            # Maximum must not be smaller than minimum
+            raise error.PieceSizeError(piece_size_max, min=self._piece_size_min, max=float('inf'))
         else:
             self._piece_size_max = int(piece_size_max)
             # If a piece size is set, silently limit it to new maximum
